@@ -192,6 +192,30 @@ static bool is_canonical_assert(const verif::AssertFailure &a)
            || a.cond.find("is_null") != std::string::npos;
 }
 
+// a Pow with an exact zero base somewhere in the tree (known defect class: pow(0, I), 0**pi are built but rejected by
+// Pow/Mul::is_canonical); used to keep that class apart from every other failure of the same assertion site
+static bool has_zero_base_pow(const Basic &e, int depth = 0)
+{
+    if (depth > 30)
+        return false;
+    if (is_a<Pow>(e)) {
+        const Basic &b = *down_cast<const Pow &>(e).get_base();
+        if (is_a_Number(b) && down_cast<const Number &>(b).is_zero())
+            return true;
+    }
+    for (auto &a : e.get_args())
+        if (has_zero_base_pow(*a, depth + 1))
+            return true;
+    return false;
+}
+static std::string g_opclass; // "<op>(<operand types>)[|zero-base-pow]" of the transition being executed
+static void set_opclass(const std::string &op, const RCP<const Basic> &a, const RCP<const Basic> *b)
+{
+    g_opclass = op + "(" + type_code_name(a->get_type_code()) + (b ? "," + type_code_name((*b)->get_type_code()) : "") + ")";
+    if (has_zero_base_pow(*a) || (b && has_zero_base_pow(**b)))
+        g_opclass += "|zero-base-pow";
+}
+
 static void run_op(const std::string &opname, const std::string &recipe, const std::function<RCP<const Basic>()> &f, Ctx &c)
 {
     c.eval();
@@ -212,11 +236,12 @@ static void run_op(const std::string &opname, const std::string &recipe, const s
         c.nontrivial();
     } catch (verif::AssertFailure &a) {
         c.count(K_ASSERT);
+        // signature = assertion site + the class of the call that reached it: one site can fail for unrelated reasons
         if (is_canonical_assert(a))
-            c.violation("assert:" + a.file + ":" + a.func + ":" + a.cond, recipe + " trips " + a.what());
+            c.violation("assert:" + a.file + ":" + a.func + ":" + a.cond + "|" + g_opclass, recipe + " trips " + a.what());
         else {
             c.count(K_PRECOND);
-            c.violation("assert-other:" + a.file + ":" + a.func + ":" + a.cond, recipe + " trips " + a.what());
+            c.violation("assert-other:" + a.file + ":" + a.func + ":" + a.cond + "|" + g_opclass, recipe + " trips " + a.what());
         }
     } catch (SymEngineException &x) {
         c.count(K_LIBEXC);
@@ -290,6 +315,7 @@ int main(int argc, char **argv)
         int op, a, b;
         dec(i, n0, n0, u, op, a, b);
         RCP<const Basic> A = SS.S[a].e, B = SS.S[b].e;
+        set_opclass(u ? UO[op].name : BO[op].name, A, u ? nullptr : &B);
         if (u)
             run_op(UO[op].name, recipe_of(u, op, a, b), [&] { return UO[op].f(A); }, c);
         else
@@ -372,6 +398,7 @@ int main(int argc, char **argv)
         if (a < n0 && b < n0)
             return; // layer 1
         RCP<const Basic> A = SS.S[a].e, B = SS.S[b].e;
+        set_opclass(u ? UO[op].name : BO[op].name, A, u ? nullptr : &B);
         if (u)
             run_op(UO[op].name, recipe_of(u, op, a, b), [&] { return UO[op].f(A); }, c);
         else
@@ -379,11 +406,137 @@ int main(int argc, char **argv)
     };
     run_cases(l2);
 
-    R.states = n1;
+    // ---- algebraic core from STRUCTURED leaves (products/sums/radicals of products as atoms): depth 2 here is depth 4-5
+    //      from x and y, which is where Mul::power_num / dict_add_term_new / Pow rules for composite bases fire
+    //      (added after seeded change C03 -- (3*sqrt(x*y))**4 kept as 81*(x*y)**2 -- escaped the atom-only alphabet)
+    StateSet TS;
+    {
+        auto Rq2 = [](long a, long b) { return Rational::from_two_ints(a, b); };
+        std::vector<std::pair<std::string, RCP<const Basic>>> tl = {
+            {"x*y", mul(X, Y)},
+            {"sqrt(x*y)", sqrt(mul(X, Y))},
+            {"(x*y)^(1/3)", pow(mul(X, Y), Rq2(1, 3))},
+            {"(x*y)^(-1/2)", pow(mul(X, Y), Rq2(-1, 2))},
+            {"x+y", add(X, Y)},
+            {"sqrt(x+1)", sqrt(add(X, one))},
+            {"2*x", mul(integer(2), X)},
+            {"x^2", pow(X, integer(2))},
+            {"1/x", div(one, X)},
+            {"sqrt(x)", sqrt(X)},
+            {"x^y", pow(X, Y)},
+            {"sqrt(2)", sqrt(integer(2))},
+            {"(1+I)^(1/2)", sqrt(add(one, I))},
+            {"sin(x)", sin(X)},
+            {"x", X},
+            {"2", integer(2)},
+            {"3", integer(3)},
+            {"4", integer(4)},
+            {"6", integer(6)},
+            {"-2", integer(-2)},
+            {"-1", integer(-1)},
+            {"1/2", Rq2(1, 2)},
+            {"-1/2", Rq2(-1, 2)},
+            {"2/3", Rq2(2, 3)},
+            {"I", I}};
+        for (auto &l : tl)
+            TS.add(l.second, l.first, 0);
+    }
+    std::vector<int> tun; // unary subset
+    for (int i = 0; i < (int)NU; i++)
+        for (const char *nm : {"sqrt", "cbrt", "neg", "expand", "conjugate", "abs", "numer", "denom", "diff_x", "simplify", "parse(str)"})
+            if (UO[i].name == nm)
+                tun.push_back(i);
+    const long long t0 = TS.size(), TNU = tun.size();
+    auto trecipe = [&](bool u, int op, int a, int b) {
+        return u ? UO[tun[op]].name + "(" + TS.S[a].recipe + ")" : BO[op].name + "(" + TS.S[a].recipe + ", " + TS.S[b].recipe + ")";
+    };
+    auto run_t = [&](const std::string &name, long long ns, long long nlo, bool both_orders, std::set<long long> *bad_out,
+                     const std::function<void(bool, int, int, int)> &collect) {
+        // cases: [unary on states nlo..ns) x tun] + [binary arithmetic: states nlo..ns x leaves 0..t0 (and reversed)]
+        CaseSet c;
+        c.name = name;
+        const long long nu = (ns - nlo) * TNU, nb = (ns - nlo) * t0 * NARITH;
+        c.n = nu + nb * (both_orders ? 2 : 1);
+        c.counter_names = cn;
+        c.hang_s = 8;
+        auto d = [&, nu, nb, nlo](long long i, bool &u, int &op, int &a, int &b) {
+            if (i < nu) {
+                u = true;
+                op = i % TNU;
+                a = b = nlo + i / TNU;
+            } else {
+                long long j = i - nu;
+                bool rev = j >= nb;
+                if (rev)
+                    j -= nb;
+                u = false;
+                op = j % NARITH;
+                j /= NARITH;
+                int leaf = j % t0, st = nlo + j / t0;
+                a = rev ? leaf : st;
+                b = rev ? st : leaf;
+            }
+        };
+        c.desc = [&, d](long long i) {
+            bool u;
+            int op, a, b;
+            d(i, u, op, a, b);
+            return trecipe(u, op, a, b);
+        };
+        c.crash_sig = [&, d](long long i, const std::string &oc) {
+            bool u;
+            int op, a, b;
+            d(i, u, op, a, b);
+            return "crash:" + (u ? UO[tun[op]].name : BO[op].name) + ":" + oc + ":(" + type_code_name(TS.S[a].e->get_type_code())
+                   + (u ? "" : "," + type_code_name(TS.S[b].e->get_type_code())) + ")";
+        };
+        c.body = [&, d](long long i, Ctx &cx) {
+            bool u;
+            int op, a, b;
+            d(i, u, op, a, b);
+            RCP<const Basic> A = TS.S[a].e, B = TS.S[b].e;
+            set_opclass(u ? UO[tun[op]].name : BO[op].name, A, u ? nullptr : &B);
+            if (u)
+                run_op(UO[tun[op]].name, trecipe(u, op, a, b), [&] { return UO[tun[op]].f(A); }, cx);
+            else
+                run_op(BO[op].name, trecipe(u, op, a, b), [&] { return BO[op].f(A, B); }, cx);
+        };
+        run_cases(c);
+        if (collect)
+            for (long long i = 0; i < c.n; i++) {
+                if (c.bad.count(i))
+                    continue;
+                bool u;
+                int op, a, b;
+                d(i, u, op, a, b);
+                collect(u, op, a, b);
+            }
+        (void)bad_out;
+    };
+    if (!past_deadline()) {
+        run_t("T1", t0, 0, true, nullptr, [&](bool u, int op, int a, int b) {
+            if (u && UO[tun[op]].name == "parse(str)")
+                return;
+            try {
+                RCP<const Basic> r = u ? UO[tun[op]].f(TS.S[a].e) : BO[op].f(TS.S[a].e, TS.S[b].e);
+                if (!r.is_null())
+                    TS.add(r, trecipe(u, op, a, b), 1);
+            } catch (...) {
+            }
+        });
+        const long long t1 = TS.size();
+        R.counters["states_T0(structured leaves)"] = t0;
+        R.counters["states_T1"] = t1;
+        if (!past_deadline())
+            run_t("T2", t1, t0, true, nullptr, nullptr);
+    }
+
+    R.states = n1 + TS.size();
     R.transitions = R.evaluations;
     R.bound_completed = "all " + std::to_string(NU) + " unary and " + std::to_string(NB) + " binary public operations on S0 (" + std::to_string(n0)
                         + " leaves) and on S1 (" + std::to_string(n1) + " states; unary on S1, binary on S1xS0 and S0xS1"
-                        + (thorough ? ", arithmetic on S1xS1" : "") + ")";
+                        + (thorough ? ", arithmetic on S1xS1" : "") + "); plus the algebraic core over 25 structured leaves (products, "
+                          "radicals of products/sums, small exponents): 11 unary + 5 arithmetic operations on T0 and on T1 x T0 in both orders";
     R.rule = "E1 in the assertion build: SYMENGINE_ASSERT is re-defined (forced include, no source change) to throw; leaves = numbers of every "
              "kind, constants, infinities, nan, x, y; operations = arithmetic, ~46 function constructors, two-argument functions, expand, diff, "
              "as_numer_denom, as_real_imag, rewrite_as_*, simplify, refine, evalf, parse(str(.)), loads(dumps(.)), series, subs with 12 maps. "
